@@ -163,7 +163,7 @@ class Gen:
         L = self.L
         L.append('#define VERIF_NO_GTEST_MAIN 1')
         L.append('#include "%s"' % header)
-        L.append('#include <typeinfo>\n#include <fstream>\n#include <cstdio>')
+        L.append('#include "include/checksum.hpp"\n#include <typeinfo>\n#include <fstream>\n#include <cstdio>')
         L.append(HELPERS)
         for i, (shape, msg) in enumerate(it.msgs):
             L.append('static void build%d(%s& r) {' % (i, root.name))
@@ -213,6 +213,26 @@ int main(int argc, char** argv) {
       } catch (const std::exception& e) {
         std::cout << "DECERR " << a << " " << clean(e.what()) << "\n";
       }
+      std::cout.flush();
+      continue;
+    }
+    if (kind == "U") {
+      int i = std::stoi(a);
+      std::cout << "BEGIN U " << i << std::endl;
+      for (int st = 0; st < 2; st++) {
+        const char* tg = st == 0 ? "ENCU" : "ENCG";
+        ChecksumServiceContext::instance().verif_enabled = (st == 1);
+        try {
+          @ROOT@ obj;
+          build(i, obj);
+          ByteBuf buf;
+          obj.encode(buf);
+          std::cout << tg << " " << i << " " << vtrace::hex(buf.data().data(), buf.data().size()) << "\n";
+        } catch (const std::exception& e) {
+          std::cout << tg << " " << i << " ERR " << clean(e.what()) << "\n";
+        }
+      }
+      ChecksumServiceContext::instance().verif_enabled = true;
       std::cout.flush();
       continue;
     }
